@@ -338,7 +338,15 @@ def run(cx):
         if opname not in keys:
             r.ok(f"{opname} not folded")
             continue
-        guarded = any(isinstance(n, ast.If) and f"ast.{opname}" in norm(n.test) and any(isinstance(x, ast.Raise) for x in ast.walk(n)) for n in ast.walk(ab))
+        # a magnitude test that raises, reached whenever the operator is this one: the operator test must be a conjunct
+        # (or a membership test) of the guarding condition, not one side of an `or`
+        from ..flow import split_and
+        guarded = False
+        for n in ast.walk(ab):
+            if isinstance(n, ast.If) and any(isinstance(x, ast.Raise) for x in ast.walk(n)):
+                atoms = [norm(a_) for a_, t_ in split_and(n.test, True) if t_]
+                if any(f"ast.{opname}" in a_ and ("opcls is" in a_ or "opcls in" in a_ or "opcls ==" in a_) for a_ in atoms):
+                    guarded = True
         r.check(guarded, f"_eval_const._apply_bin[{opname}]-unbounded", (pm, keys[opname]), f"ast.{opname} is folded with operator.{fn_name} on unbounded literal operands (e.g. sleep(10**10**8) never returns)")
 
     # ---- C11-STATE ---------------------------------------------------------------------------
